@@ -140,6 +140,9 @@ void env_future_fn(FUT *ret, FFN *fn) {
 /* result_of()'s catch(...) branch: reachable only if the user function throws, which the environment stub never does */
 void promise_set_exc(SPBOOL *ret, PROMISE *p, EXCPTR *e) { __CPROVER_assert(0, "not covered: the function passed to shared_future(Fn) throws (future::result_of catch branch)"); }
 #endif
+#ifdef CV_HAS_spbool_dtor
+void spbool_dtor(SPBOOL *sp) { __CPROVER_assert(0, "not covered: the function passed to shared_future(Fn) throws (temporary of the catch branch)"); }
+#endif
 
 /* ================================================================ contracts ================================================ */
 
@@ -319,8 +322,11 @@ __CPROVER_ensures(gh_cb0 != 0 ==> (gh_allocs == __CPROVER_old(gh_allocs) && H_CB
  *      handle: keeps its state.  Either way the returned promise is bound to the shared state, the future is pending and the
  *      tracer holds its extra reference. */
 #ifdef CV_HAS_sf_get_promise
+#ifndef GP_CASE_PRE
+#define GP_CASE_PRE(h) 1            /* units split the two cases: (H_CB(h) == 0) / (H_CB(h) != 0) */
+#endif
 void sf_get_promise(PROMISE *ret, SF *this_)
-__CPROVER_requires(MODEL_PRE && __CPROVER_is_fresh(ret, sizeof(*ret)) && __CPROVER_is_fresh(this_, sizeof(*this_)))
+__CPROVER_requires(MODEL_PRE && __CPROVER_is_fresh(ret, sizeof(*ret)) && __CPROVER_is_fresh(this_, sizeof(*this_)) && GP_CASE_PRE(this_))
 REQ_H_EMPTY_OR_INITIALISED(this_)
 __CPROVER_requires(PEQ(gh_cb0, H_CB(this_)) && PEQ(gh_obj0, H_OBJ(this_)) && (gh_cb0 != 0 ==> gh_c0 == gh_cb0->strong))
 __CPROVER_requires(gh_sub_calls == 0 && gh_sub_ok == 0 && gh_promise_drops == 0)
